@@ -72,6 +72,9 @@ pub struct SharedGroup {
 #[derive(Clone, Debug, Default)]
 pub struct LBook {
     pub sheets: Vec<LSheet>,
+    /// bytes of the part `xl/vbaProject.bin` (xlsx, xlsb; the other formats ignore it). The reader only looks at it
+    /// when `vba_project()` is called (C07: repeated calls, also on a part that cannot be parsed)
+    pub vba: Option<Vec<u8>>,
 }
 
 #[derive(Clone, Copy, Debug, PartialEq, Eq)]
@@ -243,6 +246,9 @@ pub fn write(book: &LBook, fmt: Fmt, rng: &mut Rng) -> Vec<u8> {
             // rows out of ascending order (schema-valid; what a read must not depend on) — not with shared-formula
             // groups, whose members are given in document order
             l.shuffle_rows = rng.chance(1, 5) && book.sheets.iter().all(|s| s.shared.is_empty());
+            if let Some(v) = &book.vba {
+                b.extra_parts.push(("xl/vbaProject.bin".into(), v.clone()));
+            }
             b.build(&l).bytes
         }
         Fmt::Xlsb => {
@@ -274,6 +280,7 @@ pub fn write(book: &LBook, fmt: Fmt, rng: &mut Rng) -> Vec<u8> {
                 }
                 b.sheets.push(sh);
             }
+            b.vba = book.vba.clone();
             b.to_bytes()
         }
         Fmt::Ods => {
